@@ -1,5 +1,86 @@
 import XsVerif.Driver.Util
-open Lean XsVerif.Driver
+import XsVerif.Model.Staged
+open Lean XsVerif.Driver XsVerif.Staged
 
--- stub: replaced when the model of C09 lands
-def main : IO Unit := XsVerif.Driver.run fun _ => .error "C09 driver not implemented"
+namespace XsVerif.Driver.C09
+
+def parseDecl (j : Json) : Except String (String × Decl) := do
+  return (← getStr j "n", ⟨← getNat j "id", ← getStrList j "deps"⟩)
+
+def evJson : Ev → Json
+  | .enter q => Json.arr #["enter", q]
+  | .exit q => Json.arr #["exit", q]
+  | .hit q => Json.arr #["hit", q]
+  | .circ q => Json.arr #["circ", q]
+  | .missing q => Json.arr #["missing", q]
+
+def kidStr : Res → String
+  | .ok n _ _ => "ok " ++ n
+  | .missing n => "missing " ++ n
+  | .circ n => "circ " ++ n
+  | .fuel => "fuel"
+
+def isFuel : Res → Bool
+  | .fuel => true
+  | _ => false
+
+def strs (l : List String) : Json := Json.arr (l.map Json.str).toArray
+
+/-- load + build of one flattened declaration list -/
+def opBuild (j : Json) : Except String Json := do
+  let pre ← getStrList j "pre"
+  let decls ← (← getArr j "decls").toList.mapM parseDecl
+  let early ← (getStrList j "early" <|> pure [])
+  let st := loadAll decls
+  let preDecls : List (String × Decl) := pre.map fun q => (q, ⟨0, []⟩)
+  let g := table (preDecls ++ st.staged)
+  let s0 := initState (fun q => pre.contains q) g
+  let n := decls.length + pre.length + 2
+  let staged := st.staged.map (·.1)
+  let order := buildOrder staged
+  let s1 := early.foldl (fun s q => (lookup n s q).1) s0
+  let s := buildAll n s1 order
+  let names := sortStrs (dedup (staged ++ pre))
+  let mut store : Array Json := #[]
+  let mut fuel := false
+  for q in names do
+    match s.store q with
+    | some (.ok _ id kids) =>
+      if kids.any isFuel then fuel := true
+      store := store.push (Json.arr #[q, id, strs (kids.map kidStr)])
+    | some r => store := store.push (Json.arr #[q, Json.null, kidStr r])
+    | none => store := store.push (Json.arr #[q, Json.null, Json.null])
+  let left := names.filter fun q => (s.staging q).isSome
+  return Json.mkObj [("errors", strs st.errors), ("staged", strs staged),
+    ("winners", Json.arr (st.staged.map fun p => Json.arr #[p.1, p.2.id]).toArray),
+    ("order", strs order), ("log", Json.arr (s.log.reverse.map evJson).toArray),
+    ("store", Json.arr store), ("left", strs left), ("fuel", fuel)]
+
+def opResolve (j : Json) : Except String Json := do
+  let dir ← getStrList j "dir"
+  let loc ← getStrList j "loc"
+  let abs ← getBool j "abs"
+  return Json.mkObj [("key", strs (resolve dir abs loc))]
+
+def parseDoc (j : Json) : Except String Doc := do
+  let incs ← (← getArr j "includes").toList.mapM fun i => do
+    return ((← getBool i "abs"), (← getStrList i "loc"))
+  return { key := ← getStrList j "key", dir := ← getStrList j "dir", includes := incs, decls := [] }
+
+def opInclude (j : Json) : Except String Json := do
+  let docs ← (← getArr j "docs").toList.mapM parseDoc
+  let root ← getStrList j "root"
+  let n := (docs.foldl (fun a d => a + d.includes.length + 1) 2)
+  let order := includeGo docs n [] [root]
+  return Json.mkObj [("order", Json.arr (order.map strs).toArray)]
+
+def handle (j : Json) : Except String Json := do
+  match ← getStr j "op" with
+  | "build" => opBuild j
+  | "resolve" => opResolve j
+  | "include" => opInclude j
+  | op => throw s!"unknown op {op}"
+
+end XsVerif.Driver.C09
+
+def main : IO Unit := XsVerif.Driver.run XsVerif.Driver.C09.handle
